@@ -269,12 +269,7 @@ class Avp:
 
         try:
             if value is not None:
-                if isinstance(avp, AvpAddress) and isinstance(value, tuple):
-                    # Be nice and do this automatically in case someone passes the
-                    # return value of `AvpAddress.value` back to another
-                    # `AvpAddress` and they have not deconstructed the tuple.
-                    avp.value = value[1]
-                elif isinstance(avp, AvpGrouped) and not isinstance(value, list):
+                if isinstance(avp, AvpGrouped) and not isinstance(value, list):
                     # Also be nice in this case
                     avp.value = [value]
                 else:
@@ -408,7 +403,28 @@ class AvpAddress(Avp):
                 f"address: {e}") from None
 
     @value.setter
-    def value(self, new_value: str):
+    def value(self, new_value: str | tuple[int, str]):
+        if isinstance(new_value, tuple):
+            # the (address family, text) pair that reading the value returns;
+            # the family is kept as given instead of being guessed from the text
+            try:
+                family, text = new_value
+                if family == 1:
+                    data = socket.inet_pton(socket.AF_INET, text)
+                elif family == 2:
+                    data = socket.inet_pton(socket.AF_INET6, text)
+                elif family == 8:
+                    data = text.encode("utf-8")
+                else:
+                    data = bytes.fromhex(text)
+                self.payload = struct.pack(f"!H{len(data)}s", family, data)
+            except (AttributeError, TypeError, ValueError, OSError,
+                    struct.error) as e:
+                raise AvpEncodeError(
+                    f"{self.name} value {new_value} is not a valid (address "
+                    f"family, address) pair: {e}") from None
+            return
+
         if isinstance(new_value, str) and ("." in new_value or ":" in new_value):
             payload = None
 
